@@ -20,6 +20,8 @@ import (
 	"github.com/oxia-db/oxia/server"
 	"github.com/oxia-db/oxia/server/kv"
 	"github.com/oxia-db/oxia/server/wal"
+
+	"verif/harness/internal/kvsafe"
 )
 
 const (
@@ -114,7 +116,7 @@ func (n *node) start() error {
 		SegmentSize: 128 * 1024,
 		SyncData:    false,
 	})
-	kvF, err := kv.NewPebbleKVFactory(&kv.FactoryOptions{DataDir: filepath.Join(n.dir, "db"), CacheSizeMB: 4})
+	kvF, err := kvsafe.New(&kv.FactoryOptions{DataDir: filepath.Join(n.dir, "db"), CacheSizeMB: 4})
 	if err != nil {
 		return err
 	}
